@@ -1644,8 +1644,10 @@ impl SctpInner {
                     self.send_chunk(CT_SHUTDOWN_ACK, 0, Bytes::new(), tag)
                         .await?;
                 }
-                CT_SHUTDOWN_ACK => {
-                    debug!("SCTP SHUTDOWN ACK received, closing connection");
+                // SHUTDOWN COMPLETE (RFC 4960 §3.3.13): the peer finished the shutdown
+                // it started with SHUTDOWN (answered above) — the association is closed.
+                14 | CT_SHUTDOWN_ACK => {
+                    debug!("SCTP SHUTDOWN ACK/COMPLETE received, closing connection");
                     self.print_stats("REMOTE_SHUTDOWN");
                     *self.close_reason.lock() = Some("REMOTE_SHUTDOWN".into());
                     self.set_state(SctpState::Closed);
